@@ -252,7 +252,7 @@ def run_fragment_batch(ctx, bi, items):
         for res in results:
             res["infra"] = "native go build timed out"
         return results
-    for res in results:
+    def run_one(res):
         try:
             parsed = J.parse_func(js, res["fname"])
             res["parsed"] = J.to_coq(parsed)
@@ -268,10 +268,13 @@ def run_fragment_batch(ctx, bi, items):
         res["node"] = outcome_node(rc, out, err)
         if not native_ok:
             res["native_build_error"] = nlog[-1500:]
-            continue
+            return res
         rc, out, err = C.sh2(["./prog", res["fname"]], cwd=dn, timeout=120)
         res["native"] = outcome_native(rc, out, err)
         res["ok"] = True
+        return res
+
+    C.parallel_map(run_one, results, workers=4)
     return results
 
 
@@ -454,12 +457,14 @@ def wide(ctx):
             return dict(i=i, infra="native go build timed out")
         if rc != 0:
             return dict(i=i, native_build_error=log[-1500:])
-        runs = []
-        for g, fs, text in groups:
+        def run_one(grp):
+            g, fs, text = grp
             rc, out, err = C.run_node(os.path.join(d, "out.js"), args=[g], cwd=d, timeout=90)
             nd = W.observe(rc, out, err, node=True)
             rc, out, err = C.sh2(["./prog", g], cwd=dn, timeout=120)
-            runs.append((g, fs, text, nd, W.observe(rc, out, err, node=False)))
+            return (g, fs, text, nd, W.observe(rc, out, err, node=False))
+
+        runs = C.parallel_map(run_one, groups, workers=6)
         return dict(i=i, runs=runs)
 
     res = C.parallel_map(one, range(nb))
